@@ -1,7 +1,7 @@
 //! C06 — static handlers never leave their directory and serve what is inside it intact.
 
 use crate::engine::{catch, hash_of, pt, show, Ctx, Fail, Lcg};
-use crate::props::c15::TmpDir;
+use crate::engine::TmpDir;
 use humphrey::http::address::Address;
 use humphrey::http::headers::Headers;
 use humphrey::http::method::Method;
@@ -148,6 +148,7 @@ pub struct Mounted {
     /// route pattern the handler is registered under
     pub route: &'static str,
     dir: &'static str,
+    #[cfg(not(hvt))]
     state: Option<Arc<humphrey_server::server::server::AppState>>,
 }
 
@@ -161,15 +162,40 @@ impl Mounted {
         if trailing_slash_dir {
             d.push('/');
         }
+        #[cfg(not(hvt))]
         let state = match handler {
             Handler::ServerDirectory(cache) => Some(Arc::new(humphrey_server::server::server::AppState::from(crate::props::c16::quiet_config(if cache { 1 << 20 } else { 0 }, 60)))),
             _ => None,
         };
-        Mounted { handler, route, dir: leak(d), state }
+        #[cfg(not(hvt))]
+        return Mounted { handler, route, dir: leak(d), state };
+        #[cfg(hvt)]
+        return Mounted { handler, route, dir: leak(d) };
     }
     fn prefix(&self) -> &str {
         self.route.strip_suffix('*').unwrap_or(self.route)
     }
+    /// tokio build: the async handlers of humphrey::handlers, driven to completion on a current-thread runtime
+    #[cfg(hvt)]
+    pub fn call(&self, uri: &str) -> Result<Response, String> {
+        use humphrey::handler_traits::{PathAwareRequestHandler, RequestHandler};
+        thread_local! {
+            static RT: tokio::runtime::Runtime = tokio::runtime::Builder::new_current_thread().enable_all().build().unwrap();
+        }
+        let req = request(uri);
+        match self.handler {
+            Handler::ServeDir => {
+                let h = humphrey::handlers::serve_dir::<()>(self.dir);
+                catch(|| RT.with(|rt| rt.block_on(h.serve(req, Arc::new(()), self.route))))
+            }
+            Handler::ServeAsFilePath => {
+                let h = humphrey::handlers::serve_as_file_path::<()>(self.dir);
+                catch(|| RT.with(|rt| rt.block_on(h.serve(req, Arc::new(())))))
+            }
+            Handler::ServerDirectory(_) => Err("not available in the tokio build".into()),
+        }
+    }
+    #[cfg(not(hvt))]
     pub fn call(&self, uri: &str) -> Result<Response, String> {
         let req = request(uri);
         match self.handler {
@@ -265,14 +291,11 @@ pub fn check_tree(ctx: &Ctx, seed: u64, paths_per_mount: usize) -> Vec<(Fail, J)
     let mut rng = Lcg(seed);
     let tree = build_tree(&mut rng);
     let mut out: Vec<(Fail, J)> = Vec::new();
-    let mounts = vec![
-        Mounted::new(Handler::ServeDir, "/*", &tree, false),
-        Mounted::new(Handler::ServeDir, "/s/*", &tree, true),
-        Mounted::new(Handler::ServeAsFilePath, "/*", &tree, rng.next() % 2 == 0),
-        Mounted::new(Handler::ServerDirectory(false), "/*", &tree, false),
-        Mounted::new(Handler::ServerDirectory(true), "/static/*", &tree, true),
-        Mounted::new(Handler::ServerDirectory(false), "/s/*", &tree, false),
-    ];
+    #[allow(unused_mut)]
+    let mut mounts = vec![Mounted::new(Handler::ServeDir, "/*", &tree, false), Mounted::new(Handler::ServeDir, "/s/*", &tree, true), Mounted::new(Handler::ServeAsFilePath, "/*", &tree, rng.next() % 2 == 0)];
+    // the server crate's directory routes exist in the threaded build only
+    #[cfg(not(hvt))]
+    mounts.extend([Mounted::new(Handler::ServerDirectory(false), "/*", &tree, false), Mounted::new(Handler::ServerDirectory(true), "/static/*", &tree, true), Mounted::new(Handler::ServerDirectory(false), "/s/*", &tree, false)]);
     let segs = hostile_segments(&tree);
     let mut push = |f: Fail, m: &Mounted, uri: &str, out: &mut Vec<(Fail, J)>| {
         if !out.iter().any(|(x, _)| x.sig == f.sig) {
@@ -382,6 +405,17 @@ pub fn check_tree(ctx: &Ctx, seed: u64, paths_per_mount: usize) -> Vec<(Fail, J)
                         }
                     }
                 }
+                // and once more without the slash, now that the slash form has been served (and possibly cached): still a
+                // redirect, and a file path with a slash appended is still not a file
+                if !d.is_empty() {
+                    ctx.case(hash_of(&(seed, &hname, m.route, &base, "301-again")), true, &[&format!("{}:dir-redirect-after-index", hname)]);
+                    if let Ok(r) = m.call(&base) {
+                        let loc = header(&r, "Location");
+                        if u16::from(r.status_code) != 301 || loc.as_deref() != Some(&format!("{}/", base)) {
+                            push(fail!("dir-redirect-after-index", "{} at {} answered {} Location {:?} for directory path {:?} after {:?} had been served (want 301 to {:?})", hname, m.route, u16::from(r.status_code), loc, base, with_slash, format!("{}/", base)), m, &base, &mut out);
+                        }
+                    }
+                }
             }
         }
         // ---- hostile paths
@@ -415,14 +449,45 @@ fn targeted(ctx: &Ctx, seed: u64) -> Vec<(Fail, J)> {
     let seps = ["/", "%2f", "%2F", "\\", "%5c", "//"];
     let targets = ["canary.txt", "root-secret/s.txt", "../canary2.txt", "index.html", "root/../canary.txt"];
     let starts = ["", "sub/", "a.txt/", "./", "%2e/", "idx/../"];
-    for m in [
-        Mounted::new(Handler::ServeDir, "/*", &tree, false),
-        Mounted::new(Handler::ServeDir, "/s/*", &tree, false),
-        Mounted::new(Handler::ServeAsFilePath, "/*", &tree, false),
-        Mounted::new(Handler::ServeAsFilePath, "/*", &tree, true),
-        Mounted::new(Handler::ServerDirectory(false), "/*", &tree, false),
-        Mounted::new(Handler::ServerDirectory(true), "/static/*", &tree, false),
-    ] {
+    #[allow(unused_mut)]
+    let mut tmounts = vec![Mounted::new(Handler::ServeDir, "/*", &tree, false), Mounted::new(Handler::ServeDir, "/s/*", &tree, false), Mounted::new(Handler::ServeAsFilePath, "/*", &tree, false), Mounted::new(Handler::ServeAsFilePath, "/*", &tree, true)];
+    #[cfg(not(hvt))]
+    tmounts.extend([Mounted::new(Handler::ServerDirectory(false), "/*", &tree, false), Mounted::new(Handler::ServerDirectory(true), "/static/*", &tree, false)]);
+    // absolute-path attacks: the canary's real location behind repeated, encoded or dotted leading separators (a
+    // handler that joins the request path onto its directory must not let an absolute component replace the base)
+    let outer = tree.root.parent().map(|p| p.to_path_buf()).unwrap_or_default();
+    let abs: Vec<String> = vec![outer.join("canary.txt").display().to_string(), outer.join("root-secret").join("s.txt").display().to_string(), "/etc/passwd".to_string()];
+    let leads = ["/", "//", "///", "%2f", "%2F/", "./", "/./", "sub/..//", "%2e/"];
+    for m in tmounts.iter() {
+        let hname = format!("{:?}", m.handler);
+        for a in &abs {
+            let tail = a.trim_start_matches('/');
+            for lead in leads {
+                for enc in [false, true] {
+                    let t = if enc { tail.replace('/', "%2f") } else { tail.to_string() };
+                    let uri = format!("{}{}{}", m.prefix(), lead, t);
+                    ctx.case(hash_of(&(&hname, m.route, &uri)), true, &["targeted-absolute-path"]);
+                    match m.call(&uri) {
+                        Err(pn) => out.push((fail!("handler-panic", "{} panicked for {:?}: {}", hname, uri, pn), json!({"tree_seed": seed.to_string(), "uri": uri}))),
+                        Ok(r) => {
+                            let f = if a == "/etc/passwd" && u16::from(r.status_code) == 200 && r.body.starts_with(b"root:") {
+                                Some(fail!(format!("escape:{:?}", m.handler).replace("(true)", "").replace("(false)", ""), "{:?} mounted at {} served /etc/passwd for request path {:?}", m.handler, m.route, uri))
+                            } else {
+                                confinement(&tree, m, &uri, &r)
+                            };
+                            if let Some(f) = f {
+                                if !out.iter().any(|(x, _): &(Fail, J)| x.sig == f.sig) {
+                                    out.push((f, json!({"tree_seed": seed.to_string(), "handler": hname, "route": m.route, "uri": uri})));
+                                }
+                            }
+                        }
+                    }
+                }
+            }
+        }
+    }
+    ctx.sample("targeted-absolute-path", || json!({"uri": format!("//{}", abs[0].trim_start_matches('/')), "expect": "no canary bytes"}));
+    for m in tmounts {
         let hname = format!("{:?}", m.handler);
         for up in ups {
             for sep in seps {
@@ -459,6 +524,7 @@ fn targeted(ctx: &Ctx, seed: u64) -> Vec<(Fail, J)> {
 
 /// Two directory routes of one host sharing one cache-enabled AppState, whose directories contain the same relative
 /// paths with different contents: each route must keep serving its own directory's files, in any request order.
+#[cfg(not(hvt))]
 fn shared_cache(ctx: &Ctx, seed: u64) -> Vec<(Fail, J)> {
     let mut rng = Lcg(seed);
     let tree = build_tree(&mut rng);
@@ -533,7 +599,10 @@ fn shared_cache(ctx: &Ctx, seed: u64) -> Vec<(Fail, J)> {
 }
 
 pub fn run(ctx: &Ctx) {
-    ctx.rule("generated directory trees (nested to depth 4, index.html/index.htm/neither, extension-less / multi-dot / spaced / Unicode / %-containing names, canary files next to the root, two levels up, in a sibling with the root's name as prefix, and an index.html outside) x handlers {serve_dir at /* and /s/*, serve_as_file_path, server directory routes with cache on/off} x request paths: every file by its (encoded) path, every directory with and without slash, random compositions of up to 5 hostile segments (dot-segments, encoded dots and separators, NUL, double-encoding, overlong UTF-8, absolute components, repeated slashes), and a targeted grid of traversal spellings. Non-trivial = path with a dot-segment, an encoded character or a nested file/directory; distinct by (tree, handler, route, uri)");
+    #[cfg(hvt)]
+    ctx.rule("tokio build: the async serve_dir / serve_as_file_path handlers on the same generated trees and request paths as the threaded check (the server crate's directory routes exist only there)");
+    #[cfg(not(hvt))]
+    ctx.rule("generated directory trees (nested to depth 4, index.html/index.htm/neither, extension-less / multi-dot / spaced / Unicode / %-containing names, canary files next to the root, two levels up, in a sibling with the root's name as prefix, and an index.html outside) x handlers {serve_dir at /* and /s/*, serve_as_file_path, server directory routes with cache on/off} x request paths: every file by its (encoded) path, every directory with and without slash, random compositions of up to 5 hostile segments (dot-segments, encoded dots and separators, NUL, double-encoding, overlong UTF-8, absolute components, repeated slashes), a targeted grid of traversal spellings, and the canaries' absolute paths behind repeated / encoded / dotted leading separators. Non-trivial = path with a dot-segment, an encoded character or a nested file/directory; distinct by (tree, handler, route, uri)");
     ctx.assume("handlers are called in-process with (route, uri) pairs the router would dispatch (uri = route prefix + path); symlinks and case-insensitive file systems are outside the quantifier");
     let trees = ctx.tier.pick(400u64, 8000u64);
     let paths = ctx.tier.pick(300usize, 400usize);
@@ -551,6 +620,7 @@ pub fn run(ctx: &Ctx) {
     });
     let t = targeted(ctx, pt::mix(ctx.seed, 699));
     found.lock().unwrap().extend(t);
+    #[cfg(not(hvt))]
     for k in 0..ctx.tier.pick(20u64, 400u64) {
         let t = shared_cache(ctx, pt::mix(ctx.seed, 650 + k));
         found.lock().unwrap().extend(t);
